@@ -692,7 +692,9 @@ func (u *Unit) callFunc(call *ast.CallExpr, f *types.Func, recv *Val, args []Val
 		// few statements into a helper function does not change what is proved about the caller
 		savedNS := u.noSafety
 		u.noSafety = true
+		u.spliceDecls = append(u.spliceDecls, fi.Decl)
 		res := u.inlineFunc(fi, recv, args, st)
+		u.spliceDecls = u.spliceDecls[:len(u.spliceDecls)-1]
 		u.noSafety = savedNS
 		u.reg.note("call of " + fi.Key + " (no contract, small, not recursive) executed in place")
 		return res
@@ -1052,7 +1054,7 @@ func (u *Unit) checkImmutableArgs(st, pre *State, con *Contract, rv *roleVals, m
 // checkCalleeFrame: when the function under verification declares a frame, everything a callee may
 // write (its own frame when it declares one, otherwise its whole syntactic write set) must lie inside it.
 func (u *Unit) checkCalleeFrame(pre *State, f *types.Func, con *Contract, rv *roleVals, ms map[string]bool, call *ast.CallExpr) {
-	if u.suppressAssigns || u.con == nil || !u.con.HasAssigns || len(u.inlineStack) > 0 || u.entry == nil || call == nil {
+	if u.suppressAssigns || u.con == nil || !u.con.HasAssigns || len(u.inlineStack) > len(u.spliceDecls) || u.entry == nil || call == nil {
 		return
 	}
 	var conj []string
@@ -1090,10 +1092,7 @@ func (u *Unit) checkCalleeFrame(pre *State, f *types.Func, con *Contract, rv *ro
 // autoInlinable: a module function without contract that is small, not generic, not (mutually) recursive
 // on the current inline stack, and free of constructs outside the subset
 func (u *Unit) autoInlinable(fi *FuncInfo) bool {
-	if fi.Decl == nil || fi.Decl.Body == nil || fi.Decl.Type.TypeParams != nil || u.inlineDepth >= 2 || u.inCommute {
-		return false
-	}
-	if fi.Obj != nil && hasTypeParams(fi.Obj) {
+	if u.inlineDepth >= 2 || u.inCommute {
 		return false
 	}
 	if u.fi != nil && fi.Key == u.fi.Key {
@@ -1104,7 +1103,20 @@ func (u *Unit) autoInlinable(fi *FuncInfo) bool {
 			return false
 		}
 	}
-	if v, ok := u.prog.inlinable[fi.Key]; ok {
+	return u.prog.staticInlinable(fi)
+}
+
+// staticInlinable: the part of autoInlinable that depends on the callee only
+func (p *Program) staticInlinable(fi *FuncInfo) bool {
+	if fi.Decl == nil || fi.Decl.Body == nil || fi.Decl.Type.TypeParams != nil {
+		return false
+	}
+	if fi.Obj != nil && hasTypeParams(fi.Obj) {
+		return false
+	}
+	p.inlMu.Lock()
+	defer p.inlMu.Unlock()
+	if v, ok := p.inlinable[fi.Key]; ok {
 		return v
 	}
 	n := 0
@@ -1130,9 +1142,9 @@ func (u *Unit) autoInlinable(fi *FuncInfo) bool {
 		return true
 	})
 	res := ok && n <= 30
-	if u.prog.inlinable == nil {
-		u.prog.inlinable = map[string]bool{}
+	if p.inlinable == nil {
+		p.inlinable = map[string]bool{}
 	}
-	u.prog.inlinable[fi.Key] = res
+	p.inlinable[fi.Key] = res
 	return res
 }
